@@ -156,6 +156,86 @@ def seal_kernels(chk, it):
             c15.swap_settlement(chk, it, n, mode='panic')
             c15.withdraw_settlement(chk, it, n, mode='panic')
         c15.deposit_settlement(chk, it, 1, mode='panic')
+        pegging_kernel(chk, it)
     finally:
         BM.CONFIG['symbolic_ops'] = False
         it.arith_feasibility = False
+
+
+def pegging_kernel(chk, it):
+    """process_pegging from an arbitrary state holding the three built-in pools (reserves in [1, 2^126]): the big-rational price
+    arithmetic, the two square roots, their conversions to u128 and the two one-sided swap_many calls never panic"""
+    from props import c15, c01
+    from mirsym.summaries import deref
+    G.reset()
+    st = State()
+    state, sterms = c01._pool_state_setup(it, st, None)
+    pools0 = state.fields[9].fields[0].data
+    keys = [c01._poolkey('Mel', 'Sym'), c01._poolkey('Erg', 'Mel'), c01._poolkey('Erg', 'Sym')]
+    ents = [c15.pool_entry(it, st, pools0, k) for k in keys]
+    st.pc += [e.data.present for e in ents]  # create_builtins ran first (and TIP-902 created ERG/SYM where pegging reads it)
+    for e in ents:
+        for i in (0, 1):
+            st.pc.append(z3.ULE(e.data.value.fields[i], 1 << 126))
+
+    def val_iter(itp, s_, a, c):
+        sm = deref(itp, s_, a[0])
+        return Opaque('TreeValIter', (sm.fields[0].data,))
+
+    def count(itp, s_, a, c):
+        v = deref(itp, s_, a[0]) if isinstance(a[0], Ptr) else a[0]
+        if not (isinstance(v, Opaque) and v.kind == 'TreeValIter'):
+            return NotImplemented
+        n = z3.BitVec('pool_count_%d' % len(G.facts), 64)
+        pres = [c15.pool_entry(itp, s_, v.data[0], k).data.present for k in keys[:2]]
+        G.add(z3.Implies(z3.And(pres), z3.UGE(n, 2)))  # two different keys present => at least two entries
+        return n
+    added = c15.install_pool_contracts(it) + [(re.compile(r'PoolKey::new$'), c01.poolkey_new_override),
+                                              (re.compile(r'val_iter$'), val_iter), (re.compile(r' as Iterator>::count$'), count)]
+    it.overrides = added[-3:] + list(it.overrides)
+    fn = it.by_last['process_pegging'][0]
+    try:
+        outs = it.exec_fn(st, fn, [state])
+    finally:
+        it.overrides = [o for o in it.overrides if o not in added]
+        it.base_read_hooks.pop('pools', None)
+    inputs = {'height': sterms['height'], 'network': sterms['network']}
+    for nm, e in zip(('mel_sym', 'erg_mel', 'erg_sym'), ents):
+        inputs[nm + '_lefts'] = e.data.value.fields[0]
+        inputs[nm + '_rights'] = e.data.value.fields[1]
+    n_ret = 0
+    for idx, (s, o) in enumerate(outs):
+        if isinstance(o, Panic):
+            chk.obligation('PANIC/process_pegging/%d' % idx, list(s.pc), z3.BoolVal(False), inputs, replay=lambda mo: replay_pegging(chk, mo, inputs),
+                           kind='PANIC', describe=str(o), bound='built-in pools present, reserves in [1, 2^126], height <= 10^8', arith='int')
+        else:
+            n_ret += 1
+    if not n_ret:
+        raise Inconclusive('process_pegging has no returning path')
+
+
+def replay_pegging(chk, model, inputs):
+    """the pegging phase alone on a Custom02 chain whose three built-in pools hold the model's reserves -- and, because the
+    witnesses of an overflow in this arithmetic sit at the far corners (products beyond 2^256) where the solver's candidates
+    rarely land, on a fixed list of extreme reserve combinations as well.  Whatever panics natively is a violation."""
+    ev = lambda t: harness.model_int(model, t)
+    B126 = 1 << 126
+    combos = [tuple(max(ev(inputs[k]), 1) for k in ('mel_sym_lefts', 'mel_sym_rights', 'erg_mel_lefts', 'erg_mel_rights', 'erg_sym_lefts', 'erg_sym_rights'))]
+    combos += [(B126, B126, 10 ** 9, 10 ** 9, 1, B126), (B126, B126, 10 ** 9, 10 ** 9, B126, 1), (B126, B126, 1, B126, 10 ** 9, 10 ** 9),
+               (B126, B126, B126, 1, 10 ** 9, 10 ** 9), (1, 1, 10 ** 9, 10 ** 9, 1, B126), (B126, 1, 10 ** 9, 10 ** 9, B126, 1)]
+    last = None
+    for (a, b, c, d, e, f) in combos:
+        for net, height in ((2, min(max(ev(inputs['height']), 1), 2_000_000)), (0xff, 100)):
+            pools = [{'left': 'MEL', 'right': 'SYM', 'lefts': str(a), 'rights': str(b), 'liqs': '1000000000'},
+                     {'left': 'ERG', 'right': 'MEL', 'lefts': str(c), 'rights': str(d), 'liqs': '1000000000'},
+                     {'left': 'ERG', 'right': 'SYM', 'lefts': str(e), 'rights': str(f), 'liqs': '1000000000'}]
+            sc = {'kind': 'batch', 'network': net, 'height': height, 'fee_pool': '0', 'tips': '0', 'fee_multiplier': '0',
+                  'dosc_speed': '1000000', 'coins': [], 'txs': [], 'probes': [], 'pools': pools, 'melmint_only': 'pegging'}
+            out = harness.run_replay([sc], 'dev')[0]
+            if 'error' in out or 'unrealizable' in out:
+                raise Inconclusive('replay: %s' % out)
+            mm = out['runs'][0].get('melmint', {})
+            last = (sc, {'panicked': mm.get('panicked'), 'msg': (mm.get('msg') or '')[-200:]})
+            if mm.get('panicked'):
+                return True, last[0], last[1]
+    return False, last[0], last[1]
